@@ -230,9 +230,9 @@ impl EncodeAttributeValue for Fingerprint {
 //@end
 //@item stun_rs :: mod attributes > mod stun > mod fingerprint > impl EncodeAttributeValue for Fingerprint > fn encode
 //@tags C10 C01 C14
-//@rules R5P R16
+//@rules R5P R16?
 //@stmt "Ok(FINGERPRINT_SIZE)"
-    proof { assert(raw_value@.subrange(0, 4) =~= seq![0u8, 0u8, 0u8, 0u8]); }
+//@?raw_value     proof { assert(raw_value@.subrange(0, 4) =~= seq![0u8, 0u8, 0u8, 0u8]); }
 //@end
 }
 impl DecodeAttributeValue for Fingerprint {
